@@ -386,6 +386,12 @@ class Caller(object):
             install_net(seams, net)
             mcmod = rig_module("rig.machine_control.machine_controller")
             bmpmod = rig_module("rig.machine_control.bmp_controller")
+            # what a brand-new pair of controllers looks like *before* this
+            # call does anything else (earlier calls must not show)
+            fresh = mcmod.MachineController("spinn", n_tries=2, timeout=0.1)
+            fb = bmpmod.BMPController("spinn", n_tries=2, timeout=0.1)
+            out.append(("fresh-mc", canon(fresh.get_context_arguments())))
+            out.append(("fresh-bmp", canon(fb.get_context_arguments())))
             first = mcmod.MachineController("spinn", n_tries=2, timeout=0.1)
             first.update_current_context(x=1, y=t.draw(2),
                                          app_id=30 + t.draw(5))
@@ -430,7 +436,10 @@ def run_reference(kind, seed, hashseed_note=None):
         try:
             os.close(r)
             w = World(Tape(seed=1))
-            res = Caller(w).call(kind, seed)
+            try:
+                res = Caller(w).call(kind, seed)
+            except Violation as v:
+                res = ("violation-in-reference", v.monitor, v.message)
             if w.violation is not None:
                 res = ("violation-in-reference", w.violation.monitor,
                        w.violation.message)
@@ -464,14 +473,19 @@ def run(world, tier, prop):
     ref = run_reference(probe_kind, probe_seed)
     if isinstance(ref, tuple) and ref and ref[0] == "died":
         raise RuntimeError("reference process failed: %r" % (ref,))
-    if isinstance(ref, tuple) and len(ref) == 2 and \
-            ref[0] not in ("violation-in-reference",):
+    ref_violated = isinstance(ref, tuple) and ref and \
+        ref[0] == "violation-in-reference"
+    if isinstance(ref, tuple) and len(ref) == 2 and not ref_violated:
         ref = ref[1]
     caller = Caller(w)
     w.ops.append("reference: %s(seed=%d) first in a pristine interpreter -> "
                  "%s" % (probe_kind, probe_seed, short(ref)))
     if n_hist >= 6:
         w.probe("history_len_ge_6")
+    if ref_violated:
+        # the probe misbehaves even when it is the first call of a process:
+        # make the same call here so that its own monitor reports it
+        n_hist = 0
     for _ in range(n_hist):
         t.next_segment()
         kind = KINDS[t.draw(len(KINDS))]
